@@ -1,6 +1,8 @@
 package ngap
 
 import (
+	"fmt"
+
 	"free5gclib/aper"
 	"free5gclib/ngap/ngapType"
 )
@@ -10,7 +12,25 @@ func Decoder(b []byte) (pdu *ngapType.NGAPPDU, err error) {
 	pdu = &ngapType.NGAPPDU{}
 
 	err = aper.UnmarshalWithParams(b, pdu, "valueExt,valueLB:0,valueUB:2")
+	if err == nil && !hasMessage(pdu) {
+		// the open type decoder leaves the value untouched (and reports nothing) when the procedure code names
+		// no message of this class: such bytes are not an NGAP message
+		err = fmt.Errorf("NGAP PDU carries no known message (message class %d)", pdu.Present)
+	}
 	return
+}
+
+// hasMessage reports whether the decoded PDU holds one of the messages of its class
+func hasMessage(pdu *ngapType.NGAPPDU) bool {
+	switch pdu.Present {
+	case ngapType.NGAPPDUPresentInitiatingMessage:
+		return pdu.InitiatingMessage != nil && pdu.InitiatingMessage.Value.Present != 0
+	case ngapType.NGAPPDUPresentSuccessfulOutcome:
+		return pdu.SuccessfulOutcome != nil && pdu.SuccessfulOutcome.Value.Present != 0
+	case ngapType.NGAPPDUPresentUnsuccessfulOutcome:
+		return pdu.UnsuccessfulOutcome != nil && pdu.UnsuccessfulOutcome.Value.Present != 0
+	}
+	return false
 }
 
 // Encoder is to NGAP pdu to raw data with PER Aligned
